@@ -109,6 +109,10 @@ def validate(number, check_country=True):
     info = _ibandb.info(number)
     if not info[0][1]:
         raise InvalidComponent()
+    # check digits are generated as 98 minus the remainder so 00, 01 and 99
+    # never occur (they would otherwise also pass the mod 97 test)
+    if number[2:4] in ('00', '01', '99'):
+        raise InvalidChecksum()
     # check if the bban part of number has the correct structure
     bban = number[4:]
     if not _struct_to_re(info[0][1].get('bban', '')).match(bban):
